@@ -33,7 +33,9 @@ DEADLINE = {"quick": 150, "thorough": 1200}
 QUICK_SC = ["ssl3-rsa", "tls10-dhe_rsa", "tls11-ecdhe_ecdsa", "tls12-rsa",
             "tls12-ecdhe_rsa-clientauth", "tls12-rsa-clientauth-ecdsa",
             "tls12-dhe_dsa", "tls12-srp", "tls12-srp_rsa", "tls12-dh_anon",
-            "tls10-ecdh_anon",
+            "tls10-ecdh_anon", "tls10-ecdhe_rsa-clientauth",
+            "tls10-rsa-reqcert-nocert", "tls12-rsa-reqcert-nocert",
+            "ssl3-rsa-reqcert-nocert",
             "tls12-resume-id", "tls12-resume-ticket", "tls12-ecdhe_rsa-npn",
             "tls12-tickets-issue", "tls13-rsa", "tls13-hrr", "tls13-psk_dhe",
             "tls13-resume-ticket", "tls13-clientauth", "tls13-alpn-tickets"]
@@ -173,6 +175,9 @@ INSERTS = {
         4, b"\x00\x00\x0e\x10" + b"\x00\x00\x00\x00" + b"\x01\x00" +
         b"\x00\x04abcd" + b"\x00\x00")),
     "NewSessionTicket12": (22, wire.hs_msg(4, b"\x00\x00\x0e\x10\x00\x04abcd")),
+    # the SSLv3 way of declining client authentication: not a substitute
+    # for the Certificate message from TLS 1.0 on
+    "warn_no_certificate": (21, b"\x01\x29"),
     "ccs": (20, b"\x01"),
     # RFC 8446 5: a *protected* change_cipher_spec record must be refused
     "ccs_protected": (20, b"\x01"),
@@ -197,20 +202,24 @@ TOKNAME = {"CertificateRequest10": "CertificateRequest",
            "EmptyCertificate13": "Certificate(empty)",
            "appdata": "app", "appdata_empty": "app", "heartbeat": "hb",
            "ccs_protected": "ccs(protected)",
+           "warn_no_certificate": "alert(no_certificate)",
            "Finished12": "Finished(bad)",
            "Finished32": "Finished(bad)"}
 
 
-def deviations(n, thorough):
+def deviations(n, thorough, ver=None):
     """single deviations over a trace of n adversary messages"""
     out = []
     for i in range(n):
+        if ver is not None and ver > (3, 0):
+            out.append(("replace", i, "warn_no_certificate"))
         out.append(("skip", i))
         out.append(("dup", i))
         if i + 1 < n:
             out.append(("swap", i))
         for name in INSERTS:
-            out.append(("insert", i, name))
+            if name != "warn_no_certificate":
+                out.append(("insert", i, name))
         for name in ("HelloRequest", "ServerHelloDone", "Finished12",
                      "KeyUpdate", "EmptyCertificate"):
             out.append(("replace", i, name))
@@ -384,7 +393,7 @@ def make_cases(ctx):
             if not (R.c_hs and R.s_hs):
                 continue
             n = len([x for x in d.log])
-            devs = deviations(n, not ctx.quick)
+            devs = deviations(n, not ctx.quick, sc.ver)
             toks = [tname(t) for (_, t, _) in d.log]
 
             def keychange(i):
@@ -401,6 +410,13 @@ def make_cases(ctx):
 
                 def always(x):
                     if x[0] in ("skip", "dup", "swap", "straddle", "append"):
+                        return True
+                    if x[0] == "insert" and x[2] == "ccs_protected":
+                        return True
+                    if x[0] == "insert_quiet" and x[2] == "OwnHello":
+                        return True
+                    if x[0] == "replace" and x[2] == "warn_no_certificate" \
+                            and toks[x[1]].startswith("Certificate"):
                         return True
                     # an unsolicited CertificateRequest where the key
                     # exchange has no place for one
@@ -659,6 +675,11 @@ def run_case(ctx, cid, P):
                 # cipher, sees ciphertext as an incomplete handshake message
                 # and waits for the rest of it
                 ctx.count("ciphertext_in_plaintext_epoch_victim_waits")
+            elif off is not None and names[off].startswith("alert(") and \
+                    cls == "remote_alert":
+                # the offending record is itself an alert: surfacing it to
+                # the caller is the victim's way of stopping
+                ctx.count("alert_in_place_of_message_surfaced")
             elif off is not None and delivered and cls != "local_alert" \
                     and not cls.startswith("undocumented") \
                     and not cls.startswith("tls:"):
